@@ -205,6 +205,21 @@ func (s *c14Server) send(caseID, class string, req []byte) {
 	var resp []byte
 	err := s.conn.Invoke(ctx, pb.QueryService_Query_FullMethodName, &req, &resp, grpc.ForceCodec(rawCodec{}))
 	cancel()
+	if status.Code(err) == codes.DeadlineExceeded && s.sp.alive() {
+		// no answer within 60 s to a request of a kind that takes milliseconds to seconds: once more, alone, with three
+		// minutes. "Answered with a response or an RPC error" is the property; a request the server chews on for ever
+		// is neither.
+		ctx, cancel = context.WithTimeout(context.Background(), 180*time.Second)
+		err = s.conn.Invoke(ctx, pb.QueryService_Query_FullMethodName, &req, &resp, grpc.ForceCodec(rawCodec{}))
+		cancel()
+		if status.Code(err) == codes.DeadlineExceeded {
+			_, log := s.sp.stop()
+			s.dead = true
+			r.Violation(caseID, "request-never-answered", map[string]any{"class": class, "request_hex": fmt.Sprintf("%x", headBytes(req, 4000)), "request_length": len(req),
+				"explanation": "no response and no RPC error within 60 s and, sent again, within 180 s; the server process was alive", "server_log": tail(log, 3000)})
+			return
+		}
+	}
 	r.Eval(1)
 	r.Count("requests_"+class, 1)
 	code := status.Code(err).String()
